@@ -181,6 +181,7 @@ pub fn record(o: &Opts) -> Res<()> {
 
     // (b) random histories with reset / load / prove on the storage-backed and in-memory trees
     let histories = if !want("hist") { 0 } else if thorough { 400 } else { 60 };
+    let mut hist_no = 0u64;
     for _ in 0..histories {
         out.ev(json!({"ev": "Seg", "part": "hist"}));
         let ts = fresh();
@@ -193,18 +194,38 @@ pub fn record(o: &Opts) -> Res<()> {
         let mut mem = in_memory::MerkleTree::new();
         let mut mem_alive = true; // the in-memory tree has no load; it follows until the first load
         let len = rng.gen_range(5..if thorough { 120 } else { 60 });
+        // every third history is QUIET: root() is not called after each operation but only at explicit Root events (after a
+        // refill to the size the tree had when root() was last called, among others) - a root remembered across reset shows
+        let quiet = hist_no % 3 == 2;
+        hist_no += 1;
+        let mut last_root_count: Option<u64> = None;
         for _ in 0..len {
+            if quiet && (rng.gen_range(0..8) == 0 || Some(stor.leaves_count()) == last_root_count) {
+                out.ev(json!({"ev": "Root", "t": cur, "root": hx(stor.root()), "count": stor.leaves_count()}));
+                if mem_alive { out.ev(json!({"ev": "Root", "t": tm, "root": hx(mem.root())})); }
+                last_root_count = Some(stor.leaves_count());
+            }
             match rng.gen_range(0..100) {
                 0..=54 => {
                     let d = rbytes(&mut rng, 12);
                     let _ = stor.push(&d);
+                    if quiet {
+                        out.ev(json!({"ev": "Push", "t": cur, "d": hx(&d), "count": stor.leaves_count()}));
+                        if mem_alive { mem.push(&d); out.ev(json!({"ev": "Push", "t": tm, "d": hx(&d)})); }
+                    } else {
                     out.ev(json!({"ev": "Push", "t": cur, "d": hx(&d), "root": hx(stor.root()), "count": stor.leaves_count()}));
                     if mem_alive { mem.push(&d); out.ev(json!({"ev": "Push", "t": tm, "d": hx(&d), "root": hx(mem.root())})); }
+                    }
                 }
                 55..=64 => {
                     stor.reset();
+                    if quiet {
+                        out.ev(json!({"ev": "Reset", "t": cur, "count": stor.leaves_count()}));
+                        if mem_alive { mem.reset(); out.ev(json!({"ev": "Reset", "t": tm})); }
+                    } else {
                     out.ev(json!({"ev": "Reset", "t": cur, "root": hx(stor.root()), "count": stor.leaves_count()}));
                     if mem_alive { mem.reset(); out.ev(json!({"ev": "Reset", "t": tm, "root": hx(mem.root())})); }
+                    }
                 }
                 65..=74 => {
                     let n = stor.leaves_count();
